@@ -87,6 +87,12 @@ func NewExchangeJSightSchema[T bytes.ByteKeeper](
 		return nil, errors.New(jerr.SchemaIsTooDeep)
 	}
 
+	// A schema for which no example can be built cannot be serialized (an
+	// empty object or array with an "or" rule, for instance).
+	if _, err = es.Example(); err != nil {
+		return nil, err
+	}
+
 	return es, nil
 }
 
